@@ -16,7 +16,7 @@ int main(void) {
   OI vx[N + 1], vy[N + 1]; NUM* pts = malloc(sizeof(NUM) * 2 * (N + 1));
   for (int i = 0; i < N; i++) { vx[i] = (OI)(2 * nd_range(-R, R)); vy[i] = (OI)(2 * nd_range(-R, R)); pts[2 * i] = NUM_OF_INT(vx[i]); pts[2 * i + 1] = NUM_OF_INT(vy[i]); }
   OI px = (OI)nd_range(-2 * R - 1, 2 * R + 1), py = (OI)nd_range(-2 * R - 1, 2 * R + 1);
-  Poly poly; memset(&poly, 0, sizeof poly); poly.f1.f0 = N; poly.f1.f1 = N; poly.f1.f2 = (void*)pts;
+  Poly poly = {0}; poly.f1.f0 = N; poly.f1.f1 = N; poly.f1.f2 = (void*)pts;
   uint8_t got = CONTAIN(&poly, NUM_OF_INT(px), NUM_OF_INT(py)) & 1;
   /* oracle: exact integers */
   int on = 0; OI wn = 0;
